@@ -894,6 +894,9 @@ class TypeBlocks(ContainerOperand):
                 astype_pre = dtype.kind in DTYPE_INEXACT_KINDS
             else:
                 dtype = self._row_dtype
+                if dtype == DTYPE_BOOL:
+                    # a reduction of Booleans need not be Boolean (sum, prod count): take the dtype the function returns
+                    dtype = np.asarray(func(array=np.zeros(1, dtype=DTYPE_BOOL), axis=0)).dtype
                 astype_pre = True # if no dtypes given (like bool) we can coerce
 
             # If dtypes were specified, we know we have specific targets in mind for output
